@@ -83,6 +83,13 @@ pub fn min_cases(kind: &'static str, tier: &str, rng: &mut Rng, rep: &mut Report
         s.extend(gen::clean_seq(rng, 40, gen::Flavor::Uniform));
         cases.push(Case::new(kind, &[12.min(wmax), 5], &s, "long-gap"));
     }
+    // one minimiser run covering more than 2^20 windows (a homopolymer between random flanks): per-run buffers and counters
+    {
+        let mut s = gen::clean_seq(rng, 60, gen::Flavor::Uniform);
+        s.extend(std::iter::repeat(*rng.pick(b"ACGT")).take((1 << 20) + rng.range(100, 5000) as usize));
+        s.extend(gen::clean_seq(rng, 60, gen::Flavor::Uniform));
+        cases.push(Case::new(kind, &[*rng.pick(&[8u64, 21, 31]).min(&wmax), 5], &s, "run-of-a-million-windows"));
+    }
     // one very long clean sequence
     {
         let s = gen::clean_seq(rng, 66_000, gen::Flavor::Uniform);
